@@ -65,7 +65,7 @@ Definition row := (Z * Z)%type.
 Definition rid (r : row) := fst r.
 
 (* atoms of a chain of Where / Or / Not calls, and the calls that follow the first Where *)
-Inductive acond := AMod (m r : Z) | AGt (k : Z) | ALt (k : Z) | AVGt (k : Z).
+Inductive acond := AMod (m r : Z) | AGt (k : Z) | ALt (k : Z) | AVGt (k : Z) | AIdEq (k : Z).
 Inductive ckind := KWhere | KOr | KNot.
 Definition acond_holds (a : acond) (r : row) : bool :=
   match a with
@@ -73,6 +73,7 @@ Definition acond_holds (a : acond) (r : row) : bool :=
   | AGt k => k <? rid r
   | ALt k => rid r <? k
   | AVGt k => k <? snd r
+  | AIdEq k => rid r =? k
   end.
 (* SQL reading of Where(a0).k1(a1).k2(a2)...: AND binds tighter than OR; [acc] is the value of the
    finished OR alternatives, [cur] the value of the AND group being read *)
@@ -93,6 +94,17 @@ Definition cond_holds (c : cond) (r : row) : bool :=
   | CNone => false
   | COrModGt m r0 k => ((rid r) mod m =? r0) || (k <? rid r)   (* Where(..).Or(..) *)
   | CSeq a l => seq_holds l false (acond_holds a r) r
+  end.
+
+(* an inline primary key given to a finder is one more Where call at the end of the chain *)
+Definition with_key (c : cond) (k : Z) : cond :=
+  match c with
+  | CAll => CSeq (AIdEq k) []
+  | CMod m r => CSeq (AMod m r) [(KWhere, AIdEq k)]
+  | CGt g => CSeq (AGt g) [(KWhere, AIdEq k)]
+  | CNone => CNone
+  | COrModGt m r g => CSeq (AMod m r) [(KOr, AGt g); (KWhere, AIdEq k)]
+  | CSeq a l => CSeq a (l ++ [(KWhere, AIdEq k)])
   end.
 
 Inductive ordering := OrdNone | OrdIdAsc | OrdIdDesc | OrdVAsc.
